@@ -9,3 +9,6 @@ pub mod n3;
 pub mod g1;
 pub mod g2;
 pub mod a3;
+pub mod d1;
+pub mod d2;
+pub mod d3;
